@@ -41,5 +41,10 @@ theorem gen_agraph_attributes :
     agraphAttributes = ["_command_array", "_fit_set", "_fitness", "_modified", "_needs_opt", "_simplified_command_array",
       "_simplified_constants", "_use_simplification", "command_array"] := by decide
 
+/-- the refresh the model `AG.update` mirrors: simplify or reduce, renumber the constant rows, keep / truncate / re-initialise the stored constants, lower `_modified` -/
+theorem gen_agraph_update :
+    agraphUpdate = "if self._use_simplification:     self._simplified_command_array = simplification_backend.simplify_stack(self._command_array) else:     self._simplified_command_array = simplification_backend.reduce_stack(self._command_array) ; const_commands = self._simplified_command_array[:, 0] == CONSTANT ; num_const = np.count_nonzero(const_commands) ; self._simplified_command_array[const_commands, 1] = np.arange(num_const) ; self._simplified_command_array[const_commands, 2] = np.arange(num_const) ; optimization_aggression = 0 ; if optimization_aggression == 0 and num_const <= len(self._simplified_constants):     self._simplified_constants = self._simplified_constants[:num_const] elif optimization_aggression == 1 and num_const == len(self._simplified_constants):     self._simplified_constants = self._simplified_constants[:num_const] else:     self._simplified_constants = (1.0,) * num_const     if num_const > 0:         self._needs_opt = True ; self._modified = False" :=
+  rfl
+
 end C18Facts
 end Bingo
